@@ -1026,4 +1026,416 @@ theorem rewind_starts (cfg : Cfg) (hwf : cfg.WF) (st : State) (now : Int) (hids 
   obtain ⟨t1, t2⟩ := track_starts hids' ht h2
   exact ⟨fun n hn => ⟨(t1 n hn).1, (t1 n hn).2.1⟩, t2⟩
 
+/-! ## Part 2 — the runner -/
+
+def Tick.isStepResult : Tick → Bool
+  | .stepResult _ _ _ _ => true
+  | _ => false
+
+def NoSR (l : List Tick) : Prop := ∀ t ∈ l, t.isStepResult = false
+
+theorem NoSR.snoc {l : List Tick} {t : Tick} (h : NoSR l) (ht : t.isStepResult = false) : NoSR (l ++ [t]) := by
+  intro x hx
+  rcases List.mem_append.mp hx with hx | hx
+  · exact h x hx
+  · simp only [List.mem_singleton] at hx; subst hx; exact ht
+
+def HeapNoSR (l : List Timer) : Prop := ∀ tm ∈ l, tm.tick.isStepResult = false
+
+/-- the guard of the event clause: a `workerDone` re-runs only with the worker's own event -/
+def Res.evIs (e0 : Ev) : Res → Bool
+  | .addCollected _ e => e == e0
+  | _ => true
+
+def Act.sameEventAt (r : Runner) : Act → Bool
+  | .workerDone s w res =>
+    r.running.all (fun x => !(x.step == s && x.wid == w) || res.all (Res.evIs x.ev))
+  | _ => true
+
+def Act.CollectOnce : Act → Prop
+  | .workerDone _ _ res => Engine.CollectOnce res
+  | _ => True
+
+instance (a : Act) : Decidable a.CollectOnce := by
+  cases a <;> simp only [Act.CollectOnce] <;> infer_instance
+
+/-- the runner invariant.  `P` switches the event clause on. -/
+structure RunInv (cfg : Cfg) (P : Prop) (r : Runner) : Prop where
+  ids : IdsInv cfg r.st
+  sub : ∀ w ∈ r.running, w.step ∈ cfg.names ∧
+    ∃ ip ∈ (r.st.workers w.step).inProg, ip.wid = w.wid ∧ (P → ip.ev = w.ev)
+  nodup : (r.running.map Worker.slot).Nodup
+  mbox : NoSR r.mailbox
+  heap : HeapNoSR r.heap
+  buf : NoSR r.buf ∨ ∃ s w ev res, r.buf = [.stepResult s w ev res] ∧ CollectOnce res ∧
+    (∀ x ∈ r.running, ¬ (x.step = s ∧ x.wid = w)) ∧
+    (P → (∀ ip ∈ (r.st.workers s).inProg, ip.wid = w → ip.ev = ev) ∧
+      ∀ b e, Res.addCollected b e ∈ res → e = ev)
+
+/-! ### `execCmds` -/
+
+theorem execCmd_st (r : Runner) (c : Cmd) : (execCmd r c).st = r.st := by
+  cases c <;> simp only [execCmd, Runner.finish, Runner.push]
+  · rename_i att step delay
+    cases delay with
+    | none => rfl
+    | some d => simp only; split <;> rfl
+  · split <;> rfl
+
+theorem execCmd_mailbox (r : Runner) (c : Cmd) : (execCmd r c).mailbox = r.mailbox := by
+  cases c <;> simp only [execCmd, Runner.finish, Runner.push]
+  · rename_i att step delay
+    cases delay with
+    | none => rfl
+    | some d => simp only; split <;> rfl
+  · split <;> rfl
+
+theorem execCmd_running (r : Runner) (c : Cmd) :
+    (execCmd r c).running = [] ∨ (execCmd r c).running = r.running ++ (workerOf c).toList := by
+  cases c with
+  | queueEvent att step delay =>
+    simp only [execCmd, Runner.push, workerOf, Option.toList, List.append_nil]
+    cases delay with
+    | none => exact Or.inr rfl
+    | some d => simp only; split <;> exact Or.inr rfl
+  | runWorker s ev w => exact Or.inr rfl
+  | halt k => exact Or.inl rfl
+  | completeRun p => exact Or.inl rfl
+  | failWorkflow s x => exact Or.inl rfl
+  | publish p => exact Or.inr (by simp [execCmd, workerOf])
+  | scheduleIdleCheck =>
+    simp only [execCmd, workerOf, Option.toList, List.append_nil]
+    split <;> exact Or.inr rfl
+  | scheduleWaiterTimeout s w t => exact Or.inr (by simp [execCmd, Runner.push, workerOf])
+  | crash => exact Or.inl rfl
+
+theorem execCmd_quiet (r : Runner) (c : Cmd) (hb : NoSR r.buf) (hh : HeapNoSR r.heap) :
+    NoSR (execCmd r c).buf ∧ HeapNoSR (execCmd r c).heap := by
+  have hpush : ∀ (t : Tick) (a : Int), t.isStepResult = false → HeapNoSR (r.push t a).heap := by
+    intro t a ht tm htm
+    simp only [Runner.push] at htm
+    rcases List.mem_append.mp htm with h | h
+    · exact hh tm h
+    · simp only [List.mem_singleton] at h; subst h; exact ht
+  cases c with
+  | queueEvent att step delay =>
+    simp only [execCmd]
+    cases delay with
+    | none => exact ⟨hb.snoc rfl, hh⟩
+    | some d =>
+      simp only
+      split
+      · exact ⟨hb, hpush _ _ rfl⟩
+      · exact ⟨hb.snoc rfl, hh⟩
+  | runWorker s ev w => exact ⟨hb, hh⟩
+  | halt k => exact ⟨hb, hh⟩
+  | completeRun p => exact ⟨hb, hh⟩
+  | failWorkflow s x => exact ⟨hb, hh⟩
+  | publish p => exact ⟨hb, hh⟩
+  | scheduleIdleCheck =>
+    simp only [execCmd]
+    split
+    · exact ⟨hb, hh⟩
+    · exact ⟨hb.snoc rfl, hh⟩
+  | scheduleWaiterTimeout s w t => exact ⟨hb, hpush _ _ rfl⟩
+  | crash => exact ⟨hb, hh⟩
+
+theorem workersOf_cons (c : Cmd) (cs : List Cmd) : workersOf (c :: cs) = (workerOf c).toList ++ workersOf cs := by
+  unfold workersOf
+  cases h : workerOf c <;> simp [List.filterMap_cons, h]
+
+theorem execCmds_spec' : ∀ (cmds : List Cmd) (r : Runner), NoSR r.buf → HeapNoSR r.heap →
+    (execCmds r cmds).st = r.st ∧ (execCmds r cmds).mailbox = r.mailbox ∧
+      (execCmds r cmds).running.Sublist (r.running ++ workersOf cmds) ∧
+      NoSR (execCmds r cmds).buf ∧ HeapNoSR (execCmds r cmds).heap
+  | [], r, hb, hh => by
+    simp only [execCmds, workersOf, List.filterMap_nil, List.append_nil]
+    exact ⟨trivial, trivial, List.Sublist.refl _, hb, hh⟩
+  | c :: cs, r, hb, hh => by
+    obtain ⟨hq1, hq2⟩ := execCmd_quiet r c hb hh
+    have hrun := execCmd_running r c
+    simp only [execCmds]
+    rw [workersOf_cons]
+    split
+    · refine ⟨execCmd_st r c, execCmd_mailbox r c, ?_, hq1, hq2⟩
+      rcases hrun with h | h
+      · rw [h]; exact List.nil_sublist _
+      · rw [h, ← List.append_assoc]; exact List.sublist_append_left _ _
+    · obtain ⟨i1, i2, i3, i4, i5⟩ := execCmds_spec' cs (execCmd r c) hq1 hq2
+      refine ⟨i1.trans (execCmd_st r c), i2.trans (execCmd_mailbox r c), ?_, i4, i5⟩
+      rcases hrun with h | h
+      · rw [h, List.nil_append] at i3
+        exact i3.trans ((List.sublist_append_right _ _).trans (List.sublist_append_right _ _))
+      · rw [h, List.append_assoc] at i3; exact i3
+
+/-! ### combining a frame with the live workers -/
+
+theorem frame_running {cfg : Cfg} {P : Prop} {freed : Nat → Nat → Prop} {st st' : State}
+    {cmds : List Cmd} {R : List Worker} (hf : Frame cfg P freed st st' cmds)
+    (hsub : ∀ w ∈ R, w.step ∈ cfg.names ∧
+      ∃ ip ∈ (st.workers w.step).inProg, ip.wid = w.wid ∧ (P → ip.ev = w.ev))
+    (hnd : (R.map Worker.slot).Nodup) (hfree : ∀ x ∈ R, ¬ freed x.step x.wid) :
+    (∀ w ∈ R ++ workersOf cmds, w.step ∈ cfg.names ∧
+      ∃ ip ∈ (st'.workers w.step).inProg, ip.wid = w.wid ∧ (P → ip.ev = w.ev)) ∧
+    ((R ++ workersOf cmds).map Worker.slot).Nodup := by
+  refine ⟨?_, ?_⟩
+  · intro w hw
+    rcases List.mem_append.mp hw with h | h
+    · obtain ⟨h1, ip, hip, hwid, hev⟩ := hsub w h
+      obtain ⟨ip', hip', hw', he'⟩ := hf.survive w.step ip hip (by rw [hwid]; exact hfree w h)
+      exact ⟨h1, ip', hip', hw'.trans hwid, fun hp => he'.trans (hev hp)⟩
+    · exact hf.started w h
+  · rw [List.map_append, List.nodup_append]
+    refine ⟨hnd, hf.nodup, ?_⟩
+    intro a ha b hb hab
+    subst hab
+    obtain ⟨x, hx, hxa⟩ := List.mem_map.mp ha
+    obtain ⟨n, hn, hna⟩ := List.mem_map.mp hb
+    rw [← hna] at hxa
+    simp only [Worker.slot, Prod.mk.injEq] at hxa
+    obtain ⟨_, ip, hip, hwid, _⟩ := hsub x hx
+    have hused : n.wid ∈ usedIds (st.workers n.step) := by
+      rw [← hxa.1, ← hxa.2]; exact mem_usedIds.mpr ⟨ip, hip, hwid⟩
+    have := hf.fresh n hn hused
+    rw [← hxa.1, ← hxa.2] at this
+    exact hfree x hx this
+
+theorem sub_of_sublist {cfg : Cfg} {P : Prop} {st : State} {R R' : List Worker} (hs : R'.Sublist R)
+    (h : (∀ w ∈ R, w.step ∈ cfg.names ∧
+      ∃ ip ∈ (st.workers w.step).inProg, ip.wid = w.wid ∧ (P → ip.ev = w.ev)) ∧
+      (R.map Worker.slot).Nodup) :
+    (∀ w ∈ R', w.step ∈ cfg.names ∧
+      ∃ ip ∈ (st.workers w.step).inProg, ip.wid = w.wid ∧ (P → ip.ev = w.ev)) ∧
+      (R'.map Worker.slot).Nodup :=
+  ⟨fun w hw => h.1 w (hs.subset hw), (hs.map _).nodup h.2⟩
+
+/-- erasing the first worker of a slot from a duplicate-free table leaves none of that slot -/
+theorem eraseP_slot_gone (s w : Nat) : ∀ (l : List Worker), (l.map Worker.slot).Nodup →
+    ∀ y ∈ l.eraseP (fun y => y.step == s && y.wid == w), ¬ (y.step = s ∧ y.wid = w)
+  | [], _, y, hy => by cases hy
+  | x :: xs, hnd, y, hy => by
+    simp only [List.map_cons, List.nodup_cons] at hnd
+    simp only [List.eraseP_cons] at hy
+    by_cases hx : (x.step == s && x.wid == w) = true
+    · rw [hx, cond_true] at hy
+      simp only [Bool.and_eq_true, beq_iff_eq] at hx
+      intro hyk
+      apply hnd.1
+      apply List.mem_map.mpr
+      exact ⟨y, hy, by simp [Worker.slot, hx.1, hx.2, hyk.1, hyk.2]⟩
+    · have hx' : (x.step == s && x.wid == w) = false := by simpa using hx
+      rw [hx', cond_false] at hy
+      rcases List.mem_cons.mp hy with h | h
+      · subst h
+        simpa using hx
+      · exact eraseP_slot_gone s w xs hnd.2 y h
+
+theorem eq_of_nodup_wid : ∀ (l : List InProg), (l.map (·.wid)).Nodup →
+    ∀ a ∈ l, ∀ b ∈ l, a.wid = b.wid → a = b
+  | [], _, a, ha, _, _, _ => by cases ha
+  | x :: xs, hnd, a, ha, b, hb, hab => by
+    simp only [List.map_cons, List.nodup_cons] at hnd
+    rcases List.mem_cons.mp ha with ha | ha <;> rcases List.mem_cons.mp hb with hb | hb
+    · rw [ha, hb]
+    · rw [ha] at hab
+      exact absurd (List.mem_map.mpr ⟨b, hb, hab.symm⟩) hnd.1
+    · rw [hb] at hab
+      exact absurd (List.mem_map.mpr ⟨a, ha, hab⟩) hnd.1
+    · exact eq_of_nodup_wid xs hnd.2 a ha b hb hab
+
+/-! ### one action -/
+
+/-- what is asked of an action: its results name no collect buffer twice; and (only for the
+event clause) its collect re-runs carry the finishing worker's own event -/
+def Act.Guard (P : Prop) (r : Runner) (a : Act) : Prop := a.CollectOnce ∧ (P → a.sameEventAt r = true)
+
+theorem isStepResult_of_external {t : Tick} (h : t.isExternal = true) : t.isStepResult = false := by
+  cases t <;> simp_all [Tick.isExternal, Tick.isStepResult]
+
+theorem step_runInv (cfg : Cfg) (hwf : cfg.WF) (pol : Policy) (P : Prop) (r : Runner) (a : Act)
+    (hg : Act.Guard P r a) (h : RunInv cfg P r) : RunInv cfg P (r.step cfg pol a) := by
+  unfold Runner.step
+  split
+  · exact h
+  cases a with
+  | drain =>
+    simp only
+    cases hbuf : r.buf with
+    | nil => simp only; exact h
+    | cons t rest =>
+      simp only
+      have hrest : NoSR rest := by
+        rcases h.buf with hn | ⟨s, w, ev, res, hb, _⟩
+        · intro x hx; exact hn x (by rw [hbuf]; simp [hx])
+        · rw [hbuf] at hb
+          simp only [List.cons.injEq] at hb
+          rw [hb.2]; intro x hx; cases hx
+      have hTick : TickOk P r.st t ∧ ∀ x ∈ r.running, ¬ t.freed x.step x.wid := by
+        rcases h.buf with hn | ⟨s, w, ev, res, hb, hco, hfree, hp⟩
+        · have ht := hn t (by rw [hbuf]; simp)
+          cases t <;> first
+            | exact ⟨trivial, fun _ _ hf => hf⟩
+            | (simp [Tick.isStepResult] at ht)
+        · rw [hbuf] at hb
+          simp only [List.cons.injEq] at hb
+          rw [hb.1]
+          exact ⟨⟨hco, hp⟩, hfree⟩
+      split
+      · exact ⟨h.ids, fun w hw => (by cases hw), List.nodup_nil, h.mbox, h.heap, Or.inl hrest⟩
+      · obtain ⟨e1, e2, e3, e4, e5⟩ := execCmds_spec' (reduce cfg pol t r.st r.now).2
+          { r with
+            buf := rest
+            idlePending := (if t = Tick.idleCheck then false else r.idlePending)
+            st := (reduce cfg pol t r.st r.now).1
+            log := r.log ++ [(t, r.now)] } hrest h.heap
+        have hf := reduce_frame cfg hwf pol P t r.st r.now h.ids hTick.1
+        have hfr := sub_of_sublist e3 (frame_running hf h.sub h.nodup hTick.2)
+        refine ⟨?_, ?_, hfr.2, ?_, e5, Or.inl e4⟩
+        · rw [e1]; exact reduce_idsInv cfg hwf pol t r.st r.now h.ids
+        · rw [e1]; exact hfr.1
+        · rw [e2]; exact h.mbox
+  | workerDone s w res =>
+    simp only
+    split
+    · exact h
+    · split
+      · exact h
+      · rename_i x hfind
+        have hx : x ∈ r.running := List.mem_of_find?_eq_some hfind
+        have hxp := List.find?_some hfind
+        simp only [Bool.and_eq_true, beq_iff_eq] at hxp
+        have hsl : (if hasStopResult res then []
+            else r.running.eraseP (fun y => y.step == s && y.wid == w)).Sublist r.running := by
+          split
+          · exact List.nil_sublist _
+          · exact List.eraseP_sublist
+        have hss := sub_of_sublist hsl ⟨h.sub, h.nodup⟩
+        refine ⟨h.ids, hss.1, hss.2, h.mbox, h.heap, Or.inr ⟨s, w, x.ev, res, rfl, hg.1, ?_, ?_⟩⟩
+        · intro y hy
+          simp only at hy
+          split at hy
+          · cases hy
+          · exact eraseP_slot_gone s w r.running h.nodup y hy
+        · intro hp
+          obtain ⟨hname, ip0, hip0, hw0, he0⟩ := h.sub x hx
+          refine ⟨?_, ?_⟩
+          · intro ip hip hipw
+            obtain ⟨c, hc, hcn⟩ := List.mem_map.mp hname
+            have hnd := (h.ids c hc).1
+            simp only [usedIds] at hnd
+            rw [hcn, hxp.1] at hnd
+            rw [hxp.1] at hip0
+            have := eq_of_nodup_wid _ hnd ip hip ip0 hip0 (by rw [hipw, hw0, hxp.2])
+            rw [this]; exact he0 hp
+          · intro b e hmem
+            have hall := hg.2 hp
+            simp only [Act.sameEventAt, List.all_eq_true] at hall
+            have := hall x hx
+            simp only [hxp.1, hxp.2, beq_self_eq_true, Bool.and_self, Bool.not_true, Bool.false_or,
+              List.all_eq_true] at this
+            have := this _ hmem
+            simpa [Res.evIs] using this
+  | pull =>
+    simp only
+    split
+    · exact h
+    · split
+      · exact h
+      · rename_i t m hmb
+        refine ⟨h.ids, h.sub, h.nodup, ?_, h.heap, Or.inl ?_⟩
+        · intro x hx; exact h.mbox x (by rw [hmb]; simp [hx])
+        · intro x hx
+          simp only [List.mem_singleton] at hx
+          subst hx
+          exact h.mbox x (by rw [hmb]; simp)
+  | timer =>
+    simp only
+    split
+    · exact h
+    · refine ⟨h.ids, h.sub, h.nodup, h.mbox, ?_, Or.inl ?_⟩
+      · intro x hx
+        exact h.heap x (List.mem_filter.mp hx).1
+      · intro x hx
+        simp only [List.mem_map] at hx
+        obtain ⟨tm, htm, rfl⟩ := hx
+        exact h.heap tm (List.mem_filter.mp (mem_sortTimers htm)).1
+  | advance dt => exact ⟨h.ids, h.sub, h.nodup, h.mbox, h.heap, h.buf⟩
+  | external t =>
+    simp only
+    split
+    · rename_i hext
+      exact ⟨h.ids, h.sub, h.nodup, h.mbox.snoc (isStepResult_of_external hext), h.heap, h.buf⟩
+    · exact h
+  | stepWrite p => exact ⟨h.ids, h.sub, h.nodup, h.mbox, h.heap, h.buf⟩
+
+/-! ### whole runs -/
+
+/-- the guard along a run: evaluated at the state each action is taken in -/
+def Runner.Guarded (cfg : Cfg) (pol : Policy) (P : Prop) : Runner → List Act → Prop
+  | _, [] => True
+  | r, a :: as => Act.Guard P r a ∧ Runner.Guarded cfg pol P (r.step cfg pol a) as
+
+theorem run_runInv (cfg : Cfg) (hwf : cfg.WF) (pol : Policy) (P : Prop) :
+    ∀ (acts : List Act) (r : Runner), Runner.Guarded cfg pol P r acts → RunInv cfg P r →
+      RunInv cfg P (Runner.run cfg pol r acts)
+  | [], r, _, h => h
+  | a :: as, r, hg, h => by
+    simp only [Runner.run, List.foldl_cons]
+    exact run_runInv cfg hwf pol P as _ hg.2 (step_runInv cfg hwf pol P r a hg.1 h)
+
+/-- without the event clause the guard is a property of the action list alone -/
+theorem guarded_of_collectOnce (cfg : Cfg) (pol : Policy) :
+    ∀ (acts : List Act) (r : Runner), (∀ a ∈ acts, a.CollectOnce) → Runner.Guarded cfg pol False r acts
+  | [], _, _ => trivial
+  | a :: as, r, h =>
+    ⟨⟨h a (by simp), fun hf => hf.elim⟩,
+      guarded_of_collectOnce cfg pol as _ (fun b hb => h b (by simp [hb]))⟩
+
+/-! ### the start of a run -/
+
+theorem rehydrateTicks_noSR (cfg : Cfg) (st : State) : NoSR (rehydrateTicks cfg st) := by
+  intro t ht
+  simp only [rehydrateTicks, List.mem_flatMap, List.mem_map] at ht
+  obtain ⟨c, _, w, _, rfl⟩ := ht
+  rfl
+
+theorem init_aux (cfg : Cfg) (hwf : cfg.WF) (P : Prop) (st0 : State) (h0 : IdsInv cfg st0) (now : Int)
+    (r : Runner) (hst : r.st = (rewind cfg st0 now).1) (hrun : r.running = []) (hb : NoSR r.buf)
+    (hh : HeapNoSR r.heap) (hm : r.mailbox = []) :
+    RunInv cfg P (execCmds r (rewind cfg st0 now).2) := by
+  obtain ⟨s1, s2⟩ := rewind_starts cfg hwf st0 now h0
+  obtain ⟨e1, e2, e3, e4, e5⟩ := execCmds_spec' (rewind cfg st0 now).2 r hb hh
+  rw [hrun, List.nil_append] at e3
+  refine ⟨?_, ?_, (e3.map _).nodup s2, ?_, e5, Or.inl e4⟩
+  · rw [e1, hst]; exact rewind_idsInv cfg hwf st0 now h0
+  · intro w hw
+    obtain ⟨a, b⟩ := s1 w (e3.subset hw)
+    obtain ⟨ip, hip, hw', he'⟩ := mem_keys.mp b
+    rw [e1, hst]
+    exact ⟨a, ip, hip, hw', fun _ => he'⟩
+  · rw [e2, hm]; intro t ht; cases ht
+
+theorem init_runInv (cfg : Cfg) (hwf : cfg.WF) (P : Prop) (st0 : State) (h0 : IdsInv cfg st0) (now : Int)
+    (start : Option Ev) (timeout : Option Nat) : RunInv cfg P (Runner.init cfg st0 now start timeout) := by
+  unfold Runner.init
+  simp only
+  apply init_aux cfg hwf P st0 h0 now
+  · rfl
+  · cases timeout <;> rfl
+  · cases timeout <;>
+    · intro t ht
+      simp only [Runner.push] at ht
+      rcases List.mem_append.mp ht with h | h
+      · exact rehydrateTicks_noSR cfg st0 t h
+      · cases start with
+        | none => cases h
+        | some e => simp only [List.mem_singleton] at h; subst h; rfl
+  · cases timeout with
+    | none => intro tm h; cases h
+    | some t =>
+      intro tm h
+      simp only [Runner.push, List.nil_append, List.mem_singleton] at h
+      subst h; rfl
+  · cases timeout <;> rfl
+
 end Engine
